@@ -1,9 +1,30 @@
 import PyamgV.Driver.Util
-/-! Driver ops of extension task E26 (op names prefixed `ext_`). -/
+import PyamgV.Driver.C19
+import PyamgV.Model.ExtC19Coo
+/-! Driver ops of extension task E26 (op names prefixed `ext_`).
+
+`ext_c19_cooscale <r|c> <rows|cols> n row col data v`: the fallback branch of `scale_rows` /
+`scale_columns` on a COO matrix with `n` rows (`cooScale`, Model/ExtC19Coo.lean); reply `ptr;idx;data`
+of the scaled canonical CSR matrix. -/
 namespace PyamgV.Drv.ExtE26
-open PyamgV PyamgV.Drv
+open PyamgV PyamgV.Drv PyamgV.C19 PyamgV.Drv.C19
+
+section
+variable {α : Type} [Add α] [Sub α] [Mul α] [Div α] [OfNat α 0] [OfNat α 1] [DecidableEq α]
+
+def run (s : Sc α) : List String → Option String
+  | ["cooscale", which, n, row, col, ax, v] =>
+    let r := parseNats row
+    let c := parseNats col
+    let x := s.parse ax
+    let coo : Coo α := (List.range r.size).map fun k => (r.getD k 0, c.getD k 0, x.getD k 0)
+    some (showRows s (cooScale (which = "rows") (s.parse v) (nat n) coo))
+  | _ => none
+end
 
 def handle : List String → Option String
+  | op :: "r" :: rest => if op.startsWith "ext_c19_" then run scR ((op.drop 8).toString :: rest) else none
+  | op :: "c" :: rest => if op.startsWith "ext_c19_" then run scC ((op.drop 8).toString :: rest) else none
   | _ => none
 
 end PyamgV.Drv.ExtE26
